@@ -85,39 +85,50 @@ def _chart_ok(root):
 
 
 def _chart_candidates(xml):
-    """Yield chart texts with one element removed (children before parents)."""
+    """Yield (key, chart text) with one element removed; parents before children, later siblings first,
+    so whole subtrees go first and the keys (index paths) of elements not tried yet stay valid."""
     try:
         root = ET.fromstring(xml)
     except ET.ParseError:
         return
     elems = []
 
-    def walk(e, depth):
-        for c in list(e):
-            walk(c, depth + 1)
-            elems.append((e, c))
-    walk(root, 0)
+    def walk(e, path):
+        for n, c in enumerate(list(e)):
+            walk(c, path + (n,))
+            elems.append((e, c, path + (n,)))
+    walk(root, ())
     ET.register_namespace("", "http://www.w3.org/2005/07/scxml")
-    for parent, child in reversed(elems):
+    for parent, child, key in reversed(elems):
         idx = list(parent).index(child)
         parent.remove(child)
         if _chart_ok(root):
-            yield ET.tostring(root, encoding="unicode")
+            yield key, ET.tostring(root, encoding="unicode")
         parent.insert(idx, child)
 
 
-def minimise(plan, still_fails, budget=250, sched_seeds=8):
+def minimise(plan, still_fails, budget=250, sched_seeds=8, wall_s=240):
     """Greedy one-at-a-time reduction.  still_fails(plan) -> bool must test for the
     same rule id.  Schedule-dependent failures are retried under several
-    scheduler seeds per candidate; the seed that fails is kept."""
+    scheduler seeds per candidate; the seed that fails is kept.  Plans that run in
+    deterministic-history mode (policy nonpreempt, no scheduler faults) do not depend on
+    the seed and get one try per candidate and a larger budget."""
     runs = [0]
+    t_end = time.time() + wall_s
+    sc = plan.get("sched", {})
+    if sc.get("policy") == "nonpreempt" and not any(sc.get(k) for k in ("spurious_p", "stall_p", "time_adv_p")):
+        sched_seeds = 1
+        budget = max(budget, 2500)
+
+    def out_of_budget():
+        return runs[0] >= budget or time.time() > t_end
 
     def test(p):
-        if runs[0] >= budget:
+        if out_of_budget():
             return None
         base_seed = p.get("sched", {}).get("seed", p.get("seed", 1))
         for j in range(sched_seeds):
-            if runs[0] >= budget:
+            if out_of_budget():
                 return None
             q = copy.deepcopy(p)
             q.setdefault("sched", {})["seed"] = base_seed if j == 0 else usimlib.splitmix(base_seed + j) % (1 << 31)
@@ -128,7 +139,7 @@ def minimise(plan, still_fails, budget=250, sched_seeds=8):
 
     cur = copy.deepcopy(plan)
     changed = True
-    while changed and runs[0] < budget:
+    while changed and not out_of_budget():
         changed = False
         # 1. scheduler faults off
         for knob in ("spurious_p", "stall_p", "time_adv_p"):
@@ -143,7 +154,7 @@ def minimise(plan, still_fails, budget=250, sched_seeds=8):
         for actor in sorted(cur.get("actors", {})):
             ops = cur["actors"][actor]
             i = len(ops) - 1
-            while i >= 0 and runs[0] < budget:
+            while i >= 0 and not out_of_budget():
                 if ops[i].get("op") in ("create",):
                     i -= 1
                     continue
@@ -157,10 +168,14 @@ def minimise(plan, still_fails, budget=250, sched_seeds=8):
                 i -= 1
         # 3. chart elements
         for cname in sorted(cur.get("charts", {})):
+            tried = set()
             progress = True
-            while progress and runs[0] < budget:
+            while progress and not out_of_budget():
                 progress = False
-                for cand in _chart_candidates(cur["charts"][cname]):
+                for key, cand in _chart_candidates(cur["charts"][cname]):
+                    if key in tried:
+                        continue
+                    tried.add(key)
                     q = copy.deepcopy(cur)
                     q["charts"][cname] = cand
                     r = test(q)
@@ -169,7 +184,7 @@ def minimise(plan, still_fails, budget=250, sched_seeds=8):
                         progress = True
                         changed = True
                         break
-                    if runs[0] >= budget:
+                    if out_of_budget():
                         break
     return cur, runs[0]
 
@@ -238,8 +253,22 @@ class Check(object):
                 log("      detail of the unreproduced violation: %s" % v["detail"][:3000])
                 status = 2
                 continue
-            small, nre = minimise(v["plan"], lambda p: rule in [r for (r, d) in self.evaluate_fresh(p, flavour)],
-                                  budget=opts.get("min_budget", 200))
+            # one child process for the whole reduction (restarted when it dies); the result is gated in a fresh one below.
+            # A candidate counts only if it still shows the same rule and is not one of the recorded findings: the reduction
+            # must not drift from a new violation into a known one
+            mu = Usim(v["plan"].get("flavour", flavour))
+
+            def still_fails(p, _mu=mu, _rule=rule):
+                if p.get("flavour", flavour) != _mu.flavour:
+                    return _rule in [r for (r, d) in self.evaluate_fresh(p, flavour)]
+                for (r, d) in self.mod.evaluate(p, _mu):
+                    if r == _rule and self.classify(r, d, p, known) is None:
+                        return True
+                return False
+            try:
+                small, nre = minimise(v["plan"], still_fails, budget=opts.get("min_budget", 200))
+            finally:
+                mu.kill()
             final = self.evaluate_fresh(small, flavour)
             detail = [d for (r, d) in final if r == rule]
             # the minimised case may turn out to be a known finding
